@@ -232,6 +232,11 @@ public:
                             std::chrono::milliseconds timeout =
                               std::chrono::milliseconds{30000}) override;
 
+  /// \brief connectSync() to an address the caller resolved itself; a TLS client
+  /// session announces \p serverName (SNI) and verifies the certificate against it.
+  ConnectResult connectSyncNamed(const std::string &host, std::uint16_t port, TlsMode tls,
+                                 std::chrono::milliseconds timeout, const std::string &serverName);
+
   SendResult sendSync(SessionId sid, iora::core::BufferView data,
                       std::chrono::milliseconds timeout =
                         std::chrono::milliseconds{30000}) override;
